@@ -128,6 +128,7 @@ type Sim struct {
 	ansQ  []*UpReq       // UPF-initiated requests not yet answered by an SMF
 	actNo int
 
+	hbSeq uint32
 	c11carriers map[string]bool
 	statesSeen map[string]bool
 	faultHit   map[uint64]bool
@@ -197,7 +198,24 @@ func (s *Sim) kickRoot() {
 	}
 }
 
+// alias: in some profiles a sub-claim of property A is part of the profile's own
+// property B (e.g. "each periodic report reaches its session once" inside C15).
+func (s *Sim) alias(p string) string {
+	switch s.cfg.Profile {
+	case "C15":
+		if p == "C10" || p == "C03" || p == "C17" {
+			return "C15"
+		}
+	case "C14":
+		if p == "C13" {
+			return "C14x" // C13's own demands are not C14's
+		}
+	}
+	return p
+}
+
 func (s *Sim) oracleOn(p string) bool {
+	p = s.alias(p)
 	if len(s.cfg.Oracles) == 0 {
 		return true
 	}
@@ -214,6 +232,7 @@ func (s *Sim) violate(prop, inv, sig string, f string, a ...any) {
 	if !s.oracleOn(prop) {
 		return
 	}
+	prop = s.alias(prop)
 	if s.res.Violation == nil {
 		s.res.Violation = &Violation{Property: prop, Invariant: inv, Signature: sig, Detail: fmt.Sprintf(f, a...), Step: s.stepNo}
 	}
